@@ -28,10 +28,10 @@ js::Value tool_variant_json(const Plan &p) {
 
 void tool_build(const Plan &p, Case &c) {
   double box = 1.7 + 0.1 * (double)(p.case_seed % 6);
-  c.files["topol.xml"] = gen_topology_xml(p, false, box);
+  std::string topfile = add_topology(p, c, false, box);
   std::string trj = trj_file(p);
   c.files[trj] = gen_trajectory(p, box, p.nmol * p.chain);
-  c.args = {"--top", "{IN}/topol.xml", "--trj", "{IN}/" + trj, "--cutoff", "0.7", "--nbins", (p.variant & V_FINE) ? "25" : "8",
+  c.args = {"--top", "{IN}/" + topfile, "--trj", "{IN}/" + trj, "--cutoff", "0.7", "--nbins", (p.variant & V_FINE) ? "25" : "8",
             "--nbmethod", (p.variant & V_SIMPLE) ? "simple" : "grid"};
 }
 
